@@ -245,18 +245,21 @@ func runC16(ctx *core.Ctx) {
 					fr.chunk = 1 + cs.R.Intn(7)
 				}
 				var buf bytes.Buffer
-				err := env.Pol.SanitizeReaderToWriter(fr, &buf)
+				// the failing source is offered through reader types with extra methods (Len, WriteTo, ReadByte ...)
+				kind := (o + v/2 + cs.Index) % len(readerKindNames)
+				err := env.Pol.SanitizeReaderToWriter(wrapReader(fr, kind, func() int { return len(fr.data) - fr.pos }), &buf)
 				cs.Eval()
 				lc["reader_faults_injected"]++
+				lc["reader_fault_source_kind:"+readerKindNames[kind]]++
 				if err == nil {
-					cs.Violate("C16:reader-fault:nil-error:SanitizeReaderToWriter", fmt.Sprintf("source failed at offset %d (with data: %v) but SanitizeReaderToWriter returned nil; input=%q", o, fr.withData, core.Clip(in, 200)), wit(map[string]interface{}{"offset": o, "with_data": fr.withData}))
+					cs.Violate("C16:reader-fault:nil-error:SanitizeReaderToWriter", fmt.Sprintf("source (offered as %s) failed at offset %d (with data: %v) but SanitizeReaderToWriter returned nil; input=%q", readerKindNames[kind], o, fr.withData, core.Clip(in, 200)), wit(map[string]interface{}{"offset": o, "with_data": fr.withData, "reader_kind": readerKindNames[kind]}))
 				}
 				if got := buf.String(); !strings.HasPrefix(want, got) && o == len(in) {
 					// with the complete input delivered before the error, what was written must be a prefix
 					cs.Violate("C16:reader-fault:not-a-prefix", fmt.Sprintf("source failed after the whole input; written %q is not a prefix of %q", core.Clip(got, 200), core.Clip(want, 200)), wit(map[string]interface{}{"offset": o}))
 				}
 				fr2 := &faultReader{data: []byte(in), at: o, withData: v&1 == 1, chunk: fr.chunk, err: fr.err}
-				b := env.Pol.SanitizeReader(fr2)
+				b := env.Pol.SanitizeReader(wrapReader(fr2, kind+1, func() int { return len(fr2.data) - fr2.pos }))
 				cs.Eval()
 				if b == nil || b.Len() != 0 {
 					got := ""
@@ -272,7 +275,7 @@ func runC16(ctx *core.Ctx) {
 		for k := 0; k < 6 && W > 0; k++ {
 			fr := &faultReader{data: []byte(in), at: cs.R.Intn(len(in) + 1), withData: k%2 == 0}
 			fw := &faultWriter{failAt: cs.R.Intn(W), mode: cs.R.Intn(4)}
-			err := env.Pol.SanitizeReaderToWriter(fr, faultStringWriter{fw})
+			err := env.Pol.SanitizeReaderToWriter(wrapReader(fr, k+cs.Index, func() int { return len(fr.data) - fr.pos }), faultStringWriter{fw})
 			cs.Eval()
 			lc["double_faults_injected"]++
 			if err == nil {
@@ -319,7 +322,8 @@ func runC16(ctx *core.Ctx) {
 					fr.chunk = 512 + cs.R.Intn(4096)
 				}
 				var buf bytes.Buffer
-				err := env.Pol.SanitizeReaderToWriter(fr, &buf)
+				kind := (o + v + cs.Index) % len(readerKindNames)
+				err := env.Pol.SanitizeReaderToWriter(wrapReader(fr, kind, func() int { return len(fr.data) - fr.pos }), &buf)
 				cs.Eval()
 				lc["reader_faults_near_buffer_boundary"]++
 				if err == nil {
@@ -330,7 +334,7 @@ func runC16(ctx *core.Ctx) {
 					cs.Violate("C16:reader-fault:not-a-prefix", fmt.Sprintf("source failed after the whole %d-byte input; what was written is not a prefix of the fault-free output", len(in)), map[string]interface{}{"policy": spec.Describe(env.Ops), "ops": env.Ops, "input": core.Show(core.Clip(in, 3000))})
 				}
 				fr2 := &faultReader{data: []byte(in), at: o, withData: v&1 == 1, chunk: fr.chunk, err: fr.err}
-				if bb := env.Pol.SanitizeReader(fr2); bb == nil || bb.Len() != 0 {
+				if bb := env.Pol.SanitizeReader(wrapReader(fr2, kind+2, func() int { return len(fr2.data) - fr2.pos })); bb == nil || bb.Len() != 0 {
 					cs.Violate("C16:reader-fault:nonempty-buffer:SanitizeReader", fmt.Sprintf("source (%d bytes) failed at offset %d but SanitizeReader returned a non-empty buffer", len(in), o),
 						map[string]interface{}{"policy": spec.Describe(env.Ops), "ops": env.Ops, "input": core.Show(core.Clip(in, 3000)), "offset": o})
 				}
